@@ -54,6 +54,39 @@ def _is_up_edge(nz, edge, recv_txt):
     return False
 
 
+def _lifetime_ok(app):
+    """Atom predicate: what a passed lifetime test establishes."""
+    want = N.cmp_atom(
+        ast.parse('time.time() + %s.lease' % app, mode='eval').body, '<',
+        ast.parse('self.valid_until', mode='eval').body)
+
+    def pred(atom):
+        key = atom.key
+        if key[0] == 'truth' and not key[2] and key[1] == '%s.lease' % app:
+            return True
+        if key[0] == 'cmp' and key[1] == '==' and \
+                [t for t, _c in key[2]] == ['%s.lease' % app] and \
+                not dict(key[2]).get('', 0):
+            return True
+        if key[0] == 'cmp':
+            try:
+                return N.same_direction(atom, want)
+            except Exception:             # pylint: disable=broad-except
+                return False
+        return False
+    return pred
+
+
+def _implies(form, pred):
+    """The formula, when it holds, establishes an atom accepted by pred
+    (and: some conjunct does; or: every disjunct does)."""
+    if form[0] == 'atom':
+        return pred(form[1])
+    if form[0] == 'and':
+        return any(_implies(part, pred) for part in form[1])
+    return bool(form[1]) and all(_implies(part, pred) for part in form[1])
+
+
 def _admission(ctx):
     index = ctx.index
     nz = N.Normaliser(N.VecHelpers(index.module(K.SCHED)))
@@ -69,15 +102,24 @@ def _admission(ctx):
               isinstance(n.ast, ast.Assign) and any(
                   isinstance(t, ast.Subscript) and
                   N.txt(t.value) == 'self.apps' for t in n.ast.targets)]
-    for pname in ('check_app_lifetime', 'check_app_constraints'):
-        for node in stores:
-            ok = K.guarded_by(graph, node, lambda e, p=pname: any(
-                a.key[0] == 'truth' and a.key[2] and
-                a.key[1].startswith('self.%s(' % p)
-                for a in nz.facts_of_edge(e)))
-            ctx.ob('C03.1', put, node, ok,
-                   'placement only after self.%s(...) returned true' %
-                   pname, construct='%s <= %s' % (node.text(50), pname))
+    papp = put.params()[1]
+    for node in stores:
+        ok = K.guarded_by(graph, node, lambda e: any(
+            a.key[0] == 'truth' and a.key[2] and
+            a.key[1].startswith('self.check_app_constraints(')
+            for a in nz.facts_of_edge(e)))
+        ctx.ob('C03.1', put, node, ok,
+               'placement only after self.check_app_constraints(...) '
+               'returned true',
+               construct='%s <= check_app_constraints' % node.text(50))
+        # the lifetime test, by what it establishes (through the method, a
+        # helper or spelled out): no lease, or now + lease < valid_until
+        ok = K.guarded_by_atoms(ctx, put, graph, node,
+                                _lifetime_ok(papp), nz)
+        ctx.ob('C03.1', put, node, ok,
+               'placement only after the lifetime test passed (no lease, '
+               'or now + lease < valid_until)',
+               construct='%s <= check_app_lifetime' % node.text(50))
     pred = index.find_method(node_cls, 'check_app_constraints')
     ctx.require(pred is not None, 'Node.check_app_constraints')
     pgraph = ctx.cfg(pred)
@@ -145,11 +187,18 @@ def _admission(ctx):
                 ctx.ob('C03.1', life, node, ok,
                        'unconditional accept only for lease 0')
             continue
-        atom = nz.atom_at(node, val) if val is not None else None
-        ok = atom is not None and N.same_direction(atom, want)
+        ok = False
+        shown = None
+        if val is not None:
+            resolved = K.rexpr(life, val)
+            form = nz.formula(resolved)
+            shown = N.txt(resolved)
+            ok = _implies(form, _lifetime_ok(app)) or \
+                K.guarded_by_atoms(ctx, life, lgraph, node,
+                                   _lifetime_ok(app), nz)
         ctx.ob('C03.1', life, node, ok,
                'leased instance admitted only under %s (found %s)' % (
-                   N.show(want), N.show(atom) if atom else None))
+                   N.show(want), shown))
     # the expiry that is granted is the instant that was checked: every
     # Server routine that computes a new placement_expiry assigns exactly
     # time.time() + lease (restoring a saved value is a copy, not a grant)
@@ -406,16 +455,36 @@ def _renewal(ctx, nz, server, loop):
         for t, _v, _k in K.assigns_attr(n))]
     ctx.require(stores, 'expiry store in Server.renew')
 
-    def passed(edge):
-        for atom in nz.facts_of_edge(edge):
-            if atom.key[0] == 'truth' and atom.key[2]:
-                text = aliases.get(atom.key[1], atom.key[1])
-                if text.startswith('self.check_app_lifetime('):
-                    return True
-        return False
     for node in stores:
-        ctx.ob('C03.5', renew, node, K.guarded_by(graph, node, passed),
+        ctx.ob('C03.5', renew, node,
+               K.guarded_by_atoms(ctx, renew, graph, node,
+                                  _lifetime_ok(app), nz),
                'expiry extended only when the lifetime test passes')
+
+    # ... and the renewal is refused only when that test fails: an instance
+    # without a lease is always renewable (it is never moved for its lease)
+    def has_lease(atom):
+        key = atom.key
+        return key[0] == 'truth' and key[2] and key[1] == '%s.lease' % app \
+            or (key[0] == 'cmp' and key[1] in ('!=', '<', '>') and
+                [t for t, _c in key[2]] == ['%s.lease' % app])
+    for node in graph.nodes:
+        if node.kind != 'return':
+            continue
+        val = node.ast.value
+        if isinstance(val, ast.Constant) and val.value:
+            continue
+        if val is None or isinstance(val, ast.Constant):
+            ok = K.guarded_by_atoms(ctx, renew, graph, node, has_lease, nz)
+        else:
+            test = C.Node(-1, 'test', val, cfg=graph)
+            fake = C.Edge(test, test, 'false')
+            ok = K.edge_establishes(ctx, renew, nz, fake, has_lease) or \
+                K.guarded_by_atoms(ctx, renew, graph, node, has_lease, nz)
+        ctx.ob('C03.5', renew, node, ok,
+               'a renewal is refused only for an instance that has a lease '
+               '(no lease: always renewable)',
+               construct='renew refused [%s]' % node.text(40))
     # failed renewal in the loop
     graph = loop.graph
     var = loop.var
